@@ -385,7 +385,7 @@ package parse
 // ===================================================================== binary.go (C19)
 // Abstract view of a reader back end: clen(f) bytes, content(f, i) the i-th byte.
 //@ ghost clen(f)
-//@ ghost content(f, i)
+//@ ghost content(f, i) byte
 
 // Behavioural contract of IBinaryReader (every implementation in the repository is verified against it;
 // call sites through the interface use it).
@@ -477,6 +477,14 @@ package parse
 //@ func BinaryReader.ReadByte
 //@   preserves[S] brInv(r)
 //@   requires[S] smallInt(r.pos)
+// unsigned value of the N bytes at stream offset p in the reader's byte order, and its two's-complement reading
+//@ pred uBE16(r, p) := content(r.f, p)*256 + content(r.f, p+1)
+//@ pred uLE16(r, p) := content(r.f, p+1)*256 + content(r.f, p)
+//@ pred uBE24(r, p) := content(r.f, p)*65536 + content(r.f, p+1)*256 + content(r.f, p+2)
+//@ pred uLE24(r, p) := content(r.f, p+2)*65536 + content(r.f, p+1)*256 + content(r.f, p)
+//@ pred uBE32(r, p) := content(r.f, p)*16777216 + content(r.f, p+1)*65536 + content(r.f, p+2)*256 + content(r.f, p+3)
+//@ pred uLE32(r, p) := content(r.f, p+3)*16777216 + content(r.f, p+2)*65536 + content(r.f, p+1)*256 + content(r.f, p)
+//@ pred sx(u, half) := ite(u < half, u, u - 2*half)
 //@ func BinaryReader.ReadUint16
 //@   preserves[S] brInv(r)
 //@   requires[S] smallInt(r.pos)
@@ -504,15 +512,22 @@ package parse
 //@ func BinaryReader.ReadInt8
 //@   preserves[S] brInv(r)
 //@   requires[S] smallInt(r.pos)
+//@   ensures[F,C19] @signed: r.err == nil ==> result == sx(content(r.f, old(r.pos)), 128)
 //@ func BinaryReader.ReadInt16
 //@   preserves[S] brInv(r)
 //@   requires[S] smallInt(r.pos)
+//@   ensures[F,C19] @signed-big: r.err == nil && r.ByteOrder != binary.LittleEndian ==> result == sx(uBE16(r, old(r.pos)), 32768)
+//@   ensures[F,C19] @signed-little: r.err == nil && r.ByteOrder == binary.LittleEndian ==> result == sx(uLE16(r, old(r.pos)), 32768)
 //@ func BinaryReader.ReadInt24
 //@   preserves[S] brInv(r)
 //@   requires[S] smallInt(r.pos)
+//@   ensures[F,C19] @signed-big: r.err == nil && r.ByteOrder != binary.LittleEndian ==> result == sx(uBE24(r, old(r.pos)), 8388608)
+//@   ensures[F,C19] @signed-little: r.err == nil && r.ByteOrder == binary.LittleEndian ==> result == sx(uLE24(r, old(r.pos)), 8388608)
 //@ func BinaryReader.ReadInt32
 //@   preserves[S] brInv(r)
 //@   requires[S] smallInt(r.pos)
+//@   ensures[F,C19] @signed-big: r.err == nil && r.ByteOrder != binary.LittleEndian ==> result == sx(uBE32(r, old(r.pos)), 2147483648)
+//@   ensures[F,C19] @signed-little: r.err == nil && r.ByteOrder == binary.LittleEndian ==> result == sx(uLE32(r, old(r.pos)), 2147483648)
 //@ func BinaryReader.ReadInt64
 //@   preserves[S] brInv(r)
 //@   requires[S] smallInt(r.pos)
@@ -581,7 +596,7 @@ package parse
 // Ghost model of a byte stream: stream(r, i) is the i-th byte reader r delivers over its lifetime and delivered(r) the
 // number of bytes it has delivered so far. The clauses tagged "ghost" define this state from Read's observable behaviour
 // (they hold for every reader by construction) and are therefore assumed at call sites and not imposed on implementations.
-//@ ghost stream(r, i)
+//@ ghost stream(r, i) byte
 //@ ghostfield delivered
 //@ iface io.Reader.Read
 //@   modifies M.uint8, G.delivered
@@ -652,3 +667,13 @@ package parse
 //@ sharedconst ? in js.*.JSON -- error values (ErrInvalidJSON and errors returned by callees) placed in the argument list of fmt.Errorf
 //@ sharedconst ? in buffer.StreamLexer.read -- the error value returned by the reader
 //@ sharedconst ? in parse.BinaryReader.ReadBytes -- the error value returned by the back end
+
+// signed 8/24-bit writers: the bytes appended are the two's-complement encoding (value mod 2^N) in the writer's byte order
+//@ func BinaryWriter.WriteInt8
+//@   ensures[S] len(w.buf) == old(len(w.buf)) + 1
+//@   ensures[F,C19] @twos: w.buf[old(len(w.buf))] == v % 256 && forall(i, 0, old(len(w.buf)), w.buf[i] == old(w.buf[i]))
+//@ func BinaryWriter.WriteInt24
+//@   ensures[S] len(w.buf) == old(len(w.buf)) + 3
+//@   ensures[F,C19] @prefix: forall(i, 0, old(len(w.buf)), w.buf[i] == old(w.buf[i]))
+//@   ensures[F,C19] @big: w.ByteOrder != binary.LittleEndian ==> w.buf[old(len(w.buf))]*65536 + w.buf[old(len(w.buf))+1]*256 + w.buf[old(len(w.buf))+2] == v % 16777216
+//@   ensures[F,C19] @little: w.ByteOrder == binary.LittleEndian ==> w.buf[old(len(w.buf))+2]*65536 + w.buf[old(len(w.buf))+1]*256 + w.buf[old(len(w.buf))] == v % 16777216
